@@ -5,6 +5,9 @@ import KyupyVerif.Proofs.WaveHazard
 import KyupyVerif.Proofs.Capture
 import KyupyVerif.Proofs.AllCircWave
 import KyupyVerif.Proofs.AllCircDemo
+import KyupyVerif.Proofs.WaveMemCirc
+import KyupyVerif.Proofs.WaveMemDemo
+import KyupyVerif.Proofs.GenOpsKnown
 /-! # C05 — 8-valued logic simulation conservatively predicts timing simulation
 
 `semL8` = what the real 8-valued `LogicSim.c_prop` chain computes for an op row (generated),
@@ -21,7 +24,13 @@ gate equations (no execution order); `sim8_predicts_all_circuits_stripped` — W
 on every signal that is not a stripped branch, no hypothesis on fork delays. `KnownProg` and `cfg.Good` are discharged
 (`genOps_known`, `good_all_circuits`). **Correspondence (not theorem):** that the real `SimOps.__init__` produces the rows of
 the model (C01/C08) and that `wave_eval_cpu` is `waveSem` (C03); the domain hypotheses `wfB`, `orderOKB`, `forksOKB` are
-evaluated by the driver on every real circuit and order. -/
+evaluated by the driver on every real circuit and order.
+**Memory level** (last section, see the header of Props/C03.lean for the memory model): `sim8_predicts_mem` — for any map
+the certificate accepts, after ANY propagation on the real memory layout the 8-valued value `LogicSim` computes for the
+captured signal abstracts the waveform found in the region of the output slot, and a hazard-free constant means the captured
+`s[4]`, `s[5]` are the "no transition" sentinels; `sim8_predicts_mem_all_circuits` — for the tables of the `SimOps` model of
+every circuit (real prefix table: all op codes are known, `genOps_known`; certificate = `C08.simops_map_accepted`), with the
+8-valued value taken from ANY solution of the netlist's 8-valued gate equations at the captured line. -/
 namespace KV.C05
 open KV KV.Sig KV.Wave
 
@@ -249,5 +258,105 @@ example : simWave demoCfg ((genOps Gen.kindPrefixes Demo.forkNet Demo.forkOrder 
 /-- non-vacuity: AND2 of a constant 1 and a rising input is a rise; of a constant 0 and a rise is a quiet 0 -/
 example : semL8 34952 [⟨true, true, false⟩, ⟨true, false, true⟩, default, default] = ⟨true, false, true⟩ := by decide +kernel
 example : semL8 34952 [⟨false, false, false⟩, ⟨true, false, true⟩, default, default] = ⟨false, false, false⟩ := by decide +kernel
+
+/-! ## memory level -/
+open KV.MapSound
+
+/-- **8-valued prediction on memory.** Accepted map, `c_caps_min ≥ 4`, delays ≥ 0, rows over known op codes; `e8` abstracts
+    the stimulus stored in the initial memory. After ANY propagation (any implementation honouring `WaveStep`, any
+    level-respecting order) the value `v` that 8-valued logic simulation of the rows (operands resolved through the stems,
+    as `LogicSim` runs them) computes for the captured signal abstracts the waveform `w` in the region of output slot `j`:
+    same initial and final value, no activity bit ⇒ no transition; and where `v` is a hazard-free constant the captured
+    earliest arrival / latest stabilisation are the sentinels and `s[3]`, `s[6]` are its components. -/
+theorem sim8_predicts_mem (p : MapIn) (hc : p.check = none) (h4 : 4 ≤ p.capsMin) (delay : Nat → Bool → Bool → Int)
+    (hd : ∀ l a b, 0 ≤ delay l a b) (hk : ∀ o ∈ p.ops, KnownCode o.lut) (m0 m' : Int → T) (env0 : Nat → Wv)
+    (e8 : Nat → V3) (hst : Stimulus p m0 env0) (hpr : Propagated p delay m0 m') (habs : ∀ l, Abs (e8 l) (env0 l))
+    (j s : Nat) (hjs : (j, s) ∈ p.ppoSrcs) (time : T) :
+    let v := exec semL8 (p.ops.map (sigOp p)) e8 s
+    let w := rdWave (p.loc j) (p.cap j) m'
+    Abs v w ∧
+    (v.p2 = false → (captureWv w time).eat = T.tmax ∧ (captureWv w time).lst = T.tmin ∧
+      (captureWv w time).init = v.p1 ∧ (captureWv w time).final = v.p0) := by
+  intro v w
+  have hkp : KnownProg (waveProg p) := by
+    intro op hop
+    obtain ⟨o, ho, rfl⟩ := List.mem_map.1 hop
+    exact hk o ho
+  have key : Abs v w := by
+    show Abs (exec semL8 _ e8 s) (rdWave _ _ m')
+    rw [propagated_eq_sim p hc delay m0 m' env0 hst hpr j s hjs, ← exec_waveProg semL8 first4_semL8]
+    exact sim8_predicts (wcfg p delay) (waveProg p) hkp (wcfg_good p hc h4 delay hd) e8 env0 habs s
+  exact ⟨key, fun h2 => const_means_quiet key h2 time⟩
+
+/-- **all circuits.** The map record of the `SimOps` model with the real prefix table for ANY well-formed netlist,
+    topological order, `strip_forks` / `c_reuse` setting, capacity vector, `c_caps_min ≥ 4`; `v8` ANY solution of the netlist's
+    8-valued gate equations (rows of the un-stripped program, the real 8-valued dispatch `semL8`) for a stimulus `e8` that
+    abstracts the input waveforms in memory. For every interface node `n` at position `i` whose data pin reads line `l`:
+    `v8 l` abstracts the waveform in the region of output slot `i` after any propagation. -/
+theorem sim8_predicts_mem_all_circuits (net : Net) (order : List Nat) (strip : Bool)
+    (capsIn : Nat → Nat) (capsMin : Nat) (reuse : Bool) (p : MapIn)
+    (hp : p = simopsMap Gen.kindPrefixes net order strip capsIn capsMin reuse)
+    (hwf : net.wfB = true) (ho : orderOKB net order = true) (hf : strip = true → forksOKB net order = true)
+    (hr : readsDrivenB Gen.kindPrefixes net order = true) (h4 : 4 ≤ capsMin)
+    (delay : Nat → Bool → Bool → Int) (hd : ∀ l a b, 0 ≤ delay l a b) (m0 m' : Int → T) (env0 : Nat → Wv)
+    (e8 v8 : Nat → V3) (hst : Stimulus p m0 env0) (hpr : Propagated p delay m0 m') (habs : ∀ l, Abs (e8 l) (env0 l))
+    (hv8 : SolvesJ (Jt net) (fun op => semL8 op.code) ((genOps Gen.kindPrefixes net order false).map OpRow.toOp) e8 v8)
+    (n i l : Nat) (hn : (n, i) ∈ net.sNodes.zipIdx) (hl : (net.node n).inPin 0 = some l) (time : T) :
+    let w := rdWave (p.loc (net.idx.ppo + i)) (p.cap (net.idx.ppo + i)) m'
+    Abs (v8 l) w ∧
+    ((v8 l).p2 = false → (captureWv w time).eat = T.tmax ∧ (captureWv w time).lst = T.tmin ∧
+      (captureWv w time).init = (v8 l).p1 ∧ (captureWv w time).final = (v8 l).p0) := by
+  intro w
+  have hc : p.check = none := by
+    rw [hp]; exact simopsMap_accepted Gen.kindPrefixes net order strip capsIn capsMin reuse hwf ho hf hr (by omega)
+  have hnet : p.net = net := by rw [hp]; rfl
+  have hjs : (net.idx.ppo + i, p.src l) ∈ p.ppoSrcs := by
+    have := mem_ppoSrcs p (n := n) (i := i) (l := l) (by rw [hnet]; exact hn) (by rw [hnet]; exact hl)
+    have hix : p.ix = net.idx := by show p.net.idx = _; rw [hnet]
+    rw [hix] at this; exact this
+  have hk : ∀ o ∈ p.ops, KnownCode o.lut := by rw [hp]; exact genOps_known_rows net order strip
+  have key := sim8_predicts_mem p hc (by rw [hp]; exact h4) delay hd hk m0 m' env0 e8 hst hpr habs _ _ hjs time
+  have hval : exec semL8 (p.ops.map (sigOp p)) e8 (p.src l) = v8 l := by
+    rw [hp]
+    exact captured_logic Gen.kindPrefixes net order strip capsIn capsMin reuse hwf ho hf hr semL8 default semL8_buf1 e8 v8
+      hv8 n i l hn hl
+  simp only [hval] at key
+  exact key
+
+/-- non-vacuity on `Wave.memDemo` (strip + reuse; `a` rises at 5, `b` constant 1): the 8-valued stimulus `a = R`, `b = 1`
+    abstracts the stored input waveforms, the 8-valued result for the captured line is a fall, and it abstracts what the real
+    layout holds in the output slot's region after the propagation -/
+example (junk : Int → Nat → Wv → (Int → T) → Int → T) :
+    Abs ⟨false, true, true⟩ (rdWave 20 4 (memRun memDemo (waveRW junk) (waveRow (wcfg memDemo memDemoDelay) memDemo)
+      (schedOps memDemo [1, 0, 2, 3]) memDemoM0)) := by
+  let e8 : Nat → V3 := fun l => if l = 9 then ⟨true, false, true⟩ else if l = 10 then ⟨true, true, false⟩ else default
+  have habs : ∀ l, Abs (e8 l) (inputEnv memDemo memDemoM0 l) := by
+    intro l
+    by_cases e9 : l = 9
+    · subst e9; rw [memDemo_env.1]; exact stim_abs false true 5
+    · by_cases e10 : l = 10
+      · subst e10; rw [memDemo_env.2.1]
+        have := stim_abs true true 0
+        exact this
+      · have : inputEnv memDemo memDemoM0 l = Wv.empty := by
+          by_cases e6 : l = 6
+          · subst e6; exact memDemo_env.2.2
+          · unfold inputEnv
+            rw [memDemo_tables.2.2.1, if_neg]
+            simp only [List.mem_cons, List.not_mem_nil, or_false]
+            rintro ((h | h) | h)
+            · exact e9 h
+            · exact e10 h
+            · exact e6 h
+        rw [this]
+        have : e8 l = default := by simp [e8, e9, e10]
+        rw [this]; exact abs_default
+  have key := (sim8_predicts_mem memDemo memDemo_check (by decide) memDemoDelay memDemoDelay_nonneg
+    (genOps_known_rows memDemoNet memDemoOrder true) memDemoM0 _ (inputEnv memDemo memDemoM0) e8 (stimulus_inputEnv _ _)
+    (memDemo_propagated junk) habs 14 5 (by decide +kernel) T.tmax).1
+  have hloc : memDemo.loc 14 = 20 ∧ memDemo.cap 14 = 4 := by decide +kernel
+  have hv : exec semL8 (memDemo.ops.map (sigOp memDemo)) e8 5 = ⟨false, true, true⟩ := by decide +kernel
+  rw [hloc.1, hloc.2, hv] at key
+  exact key
 
 end KV.C05
